@@ -39,6 +39,10 @@ class BadOp(Exception):
     pass
 
 
+class _Special(Exception):
+    """carries a fully rendered reply"""
+
+
 def err_name(e: BaseException) -> str:
     if isinstance(e, UserExc):
         return f'User{e.n}'
@@ -165,6 +169,59 @@ class Impl:
             return lambda sp: 'not a treespec'
         raise BadOp('fleaf')
 
+    # ---- mapped functions (mirror of `fnMenu` in lean/OptreeModel/Model/Eval.lean)
+    def user_fn(self, fid, variant, log):
+        u = self.u
+
+        def fresh(i):
+            return u.leaf(0, 500000 + i)
+
+        def first_obj(args):
+            return args[1] if variant in ('path', 'acc') else args[0]
+
+        def enc_args(args):
+            out = []
+            for j, a in enumerate(args):
+                if j == 0 and variant == 'path':
+                    out.append([A('p'), *u.enc_keys(a)])
+                elif j == 0 and variant == 'acc':
+                    out.append([A('a'), *self.enc_acc(a)])
+                else:
+                    out.append(u.enc_obj(a))
+            return out
+
+        def f(*args):
+            i = len(log)
+            log.append(enc_args(args))
+            if fid == 0:
+                return first_obj(args)
+            if fid == 1:
+                return fresh(i)
+            if fid == 2:
+                return (first_obj(args), fresh(i))
+            if fid == 3:
+                if i == 2:
+                    raise UserExc(2)
+                return fresh(i)
+            if fid == 4:
+                return None
+            if fid == 5:
+                return (fresh(i), fresh(1000 + i)) if i % 2 == 0 else [fresh(i)]
+            if fid == 6:
+                return {'b': fresh(i), 'a': [fresh(1000 + i), None]}
+            raise BadOp('fn')
+
+        return f
+
+    def map_like(self, call, log):
+        try:
+            r = call()
+        except BadOp:
+            raise
+        except Exception as e:  # noqa: BLE001
+            return ('err', err_name(e), log)
+        return ('ok', r, log)
+
     def coll(self, s):
         from universe import FACTORIES, NT_CLASSES as NT, SS_CLASSES as SS, Lf
         u = self.u
@@ -258,6 +315,31 @@ class Impl:
             kw, ordered = self.cfg(s[1])
             with self.ordered(ordered):
                 return [bool(optree.all_leaves([u.obj(x) for x in s[2]], **kw))]
+        if op in ('map', 'bmap', 'transpose_map'):
+            raise _Special(self.eval_map(s))
+        if op == 'transpose':
+            kw, ordered = self.cfg(s[1])
+            outer, inner = self.spec(s[2]), self.spec(s[3])
+            t = u.obj(s[4])
+            with self.ordered(ordered):
+                return [u.enc_obj(optree.tree_transpose(outer, inner, t, is_leaf=kw['is_leaf']))]
+        if op == 'bprefix':
+            kw, ordered = self.cfg(s[1])
+            a, b = u.obj(s[2]), u.obj(s[3])
+            with self.ordered(ordered):
+                r = optree.tree_broadcast_prefix(a, b, **kw)
+                ls = optree.broadcast_prefix(a, b, **kw)
+            return [u.enc_obj(r), [A('leaves'), *map(u.enc_obj, ls)]]
+        if op == 'bcommon':
+            kw, ordered = self.cfg(s[1])
+            a, b = u.obj(s[2]), u.obj(s[3])
+            with self.ordered(ordered):
+                ta, tb = optree.tree_broadcast_common(a, b, **kw)
+            return [self.enc_sentinel(ta), self.enc_sentinel(tb)]
+        if op == 'replace_nones':
+            kw, ordered = self.cfg(s[1])
+            with self.ordered(ordered):
+                return [u.enc_obj(optree.tree_replace_nones(u.leaf(0, 777777), u.obj(s[2]), namespace=kw['namespace']))]
         if op == 'repr':
             return [repr(self.spec(s[1]))]
         if op == 'eq':
@@ -276,6 +358,52 @@ class Impl:
             keys = [u.key(k) for k in s[1:]]
             return self.sort_observation(keys)
         raise BadOp(f'request {op}')
+
+    def enc_sentinel(self, t):
+        return self.u.enc_obj(t)
+
+    def eval_map(self, s):
+        u = self.u
+        op = s[0]
+        log = []
+        if op == 'map':
+            variant, inplace = str(s[1]), s[2] == '1'
+            kw, ordered = self.cfg(s[3])
+            f = self.user_fn(int(s[4]), variant, log)
+            t = u.obj(s[5])
+            rests = [u.obj(x) for x in s[6:]]
+            name = {'plain': 'tree_map', 'path': 'tree_map_with_path', 'acc': 'tree_map_with_accessor'}[variant]
+            fn = getattr(optree, name + ('_' if inplace else ''))
+            with self.ordered(ordered):
+                res = self.map_like(lambda: fn(f, t, *rests, **kw), log)
+            if res[0] == 'ok' and inplace and res[1] is not t:
+                return render([A('ok'), [A('X'), 'underscore variant did not return the original tree object'], [A('calls'), *log]])
+        elif op == 'bmap':
+            variant = str(s[1])
+            kw, ordered = self.cfg(s[2])
+            f = self.user_fn(int(s[3]), variant, log)
+            t = u.obj(s[4])
+            rests = [u.obj(x) for x in s[5:]]
+            name = {'plain': 'tree_broadcast_map', 'path': 'tree_broadcast_map_with_path',
+                    'acc': 'tree_broadcast_map_with_accessor'}[variant]
+            fn = getattr(optree, name)
+            with self.ordered(ordered):
+                res = self.map_like(lambda: fn(f, t, *rests, **kw), log)
+        else:
+            variant = str(s[1])
+            kw, ordered = self.cfg(s[2])
+            f = self.user_fn(int(s[3]), variant, log)
+            inner = None if (isinstance(s[4], Atom) and s[4] == '-') else self.spec(s[4])
+            t = u.obj(s[5])
+            rests = [u.obj(x) for x in s[6:]]
+            name = {'plain': 'tree_transpose_map', 'path': 'tree_transpose_map_with_path',
+                    'acc': 'tree_transpose_map_with_accessor'}[variant]
+            fn = getattr(optree, name)
+            with self.ordered(ordered):
+                res = self.map_like(lambda: fn(f, t, *rests, inner_treespec=inner, **kw), log)
+        if res[0] == 'ok':
+            return render([A('ok'), u.enc_obj(res[1]), [A('calls'), *log]])
+        return render([A('err'), A(res[1]), [A('calls'), *log]])
 
     def sort_observation(self, keys):
         """what the engine's TotalOrderSort does to a key list, observed through a dict flatten"""
@@ -323,6 +451,8 @@ class Impl:
                 warnings.simplefilter('ignore')
                 out = self.eval(s)
             return render([A('ok'), *out])
+        except _Special as sp:
+            return sp.args[0]
         except BadOp:
             return 'bad-op'
         except RecursionError as e:
